@@ -5,6 +5,7 @@ package c05
 import (
 	"encoding/json"
 	"fmt"
+	"io"
 	"os"
 	"sort"
 	"strings"
@@ -203,7 +204,22 @@ func runPred(w coraza.WAF, p pred, calls *int) (types.Transaction, func() string
 			return
 		}
 		if r, err := tx.RequestBodyReader(); err == nil {
-			reader = func() string { return probe.ReadAll(r, nil) }
+			// several handles (the probe itself takes readers, inside the body phase and for its own read-back: a stale
+			// handle must stay silent whichever of them the recycled buffer hands out next)
+			rs := []io.Reader{r}
+			for i := 0; i < 4; i++ {
+				if r2, err := tx.RequestBodyReader(); err == nil {
+					rs = append(rs, r2)
+				}
+			}
+			reader = func() string {
+				for _, r := range rs {
+					if s := probe.ReadAll(r, nil); s != `""` {
+						return s
+					}
+				}
+				return `""`
+			}
 		}
 		if !do(func() { _, _ = tx.ProcessRequestBody() }) {
 			return
